@@ -73,7 +73,8 @@ _core_prop("C05", "The log is append-only: entries never change or vanish",
     "Lean 4: monotonicity of every step of the system model (step_mono), sorted-sublist lemma (values_sublist); known finding lww-tie-order proved as a concrete counterexample",
     "Kernel-checked: every operation keeps every entry of every replica retrievable by hash with identical content, never decreases the count, changes only the target replica, and the new Values() contains the old one as a subsequence whenever the ordering is a strict total order on the new entries (values_subsequence_partial). Without that premise the claim is FALSE for the default ordering (two entries of one writer with equal clock time): proved by a concrete model counterexample and reproduced on the implementation — recorded as known finding lww-tie-order. Pointer aliasing between instances cannot occur in the model (immutable values); entry immutability is checked by the harness on hashes. The conc stream adds the final entries and values of every log after controlled interleavings (three logs merging each other while being appended to).",
     CORE_NOTE, extra_streams=[CONC_FOR_CORE])
-PROPS["C05"]["diff_fields_by_stream"] = {"core": PROPS["C05"]["diff_fields"], "conc": r"(final\.(entries|values).*|read\.(entries|values|len).*)"}
+PROPS["C05"]["streams"] = PROPS["C05"]["streams"] + [dict(name="codec", quick=["-n", "60", "-nochild"], thorough=["-n", "1500", "-thorough", "-nochild"], shards_quick=3, shards_thorough=12)]
+PROPS["C05"]["diff_fields_by_stream"] = {"codec": r"(?!)", "core": PROPS["C05"]["diff_fields"], "conc": r"(final\.(entries|values).*|read\.(entries|values|len).*)"}
 _core_prop("C15", "Iteration returns the requested causal range, newest first, and always ends",
     r"iter/.*",
     "Lean 4: relaxed worklist invariant for traversal from arbitrary roots (traverse_general, end hash, amount) and the range theorems of Iterator; traversal-free specification iterSpec evaluated on every implementation call",
